@@ -49,14 +49,19 @@ ASSUMPTIONS = [
     "blank nodes are out of scope (unsupported by design: _node_to_sparql raises)",
     "the endpoint executes one update request atomically with respect to parse errors and keeps empty named graphs "
     "(as rdflib's Memory store does); CREATE GRAPH of an existing graph is accepted silently",
+    "a transaction (the queued edits sent as one request) that contains a statement the endpoint rejects is lost as a "
+    "whole: the call that sent it raises, the endpoint is unchanged, the queue is empty afterwards (specified so, and "
+    "what the repaired commit() does)",
     "_edits = None and _edits = [] are identified in the model (they are indistinguishable through the API)",
-    "Python truthiness of the pool terms is the table falsy_ids of Model.v (asserted at import against bool(term))",
+    "falsy_ids of Model.v (only used by the lemma about the pre-fix contexts()) is the set of falsy pool terms (asserted at import)",
 ]
 RULE = ("histories of 2-12 store operations over a vocabulary of 3 subjects x 2 predicates x ~20 objects (falsy literals, quotes, "
         "newline, CR, tab, backslash, non-ASCII, language tags, datatypes, braces/WHERE inside strings) and graphs {default, "
         "urn:g:1, urn:g:2, urn:g:5}; x method GET/POST/POST_FORM x result format XML/JSON x autocommit x dirty_reads x endpoint "
-        "flavour (rdflib Dataset / generic) x API route (store, Graph, Dataset); distinct by full case content, non-trivial = at "
-        "least one write and one read")
+        "flavour (rdflib Dataset / generic) x API route (store, Graph, Dataset) x constructor kwargs (none / params= / headers= / "
+        "both); reads hop between graphs, 8% of the slots are add/remove/add (or remove/add/remove) runs on one triple, updates "
+        "the endpoint rejects occur in 30% of the histories; distinct by full case content, non-trivial = at least one write "
+        "and one read")
 
 # ---------------------------------------------------------------- terms
 EXTRA = [
@@ -782,8 +787,10 @@ class C20(Suite):
             yield dict(case, ops=ops[:i] + ops[i + 1:])
         for i in range(len(case["init"])):
             yield dict(case, init=case["init"][:i] + case["init"][i + 1:])
+        used = {q[3] for q in case["init"]}
         for i in range(len(case["names"])):
-            yield dict(case, names=case["names"][:i] + case["names"][i + 1:])
+            if case["names"][i] not in used:  # a graph with triples exists
+                yield dict(case, names=case["names"][:i] + case["names"][i + 1:])
         for i, o in enumerate(ops):
             if o[0] == "addN" and len(o[1]) > 1:
                 for j in range(len(o[1])):
